@@ -44,6 +44,7 @@ func RunC13(tier string) int {
 			run.Infra(err.Error())
 			return
 		}
+		env.EnableHookLog()
 		keep := false
 		defer func() {
 			if !keep {
